@@ -1,6 +1,8 @@
 """Configuration of the checks: library flavours and, per property, the monitor programs to run."""
 
-SAN = "-fsanitize=address,undefined -fno-sanitize-recover=all -fno-omit-frame-pointer"
+# nonnull-attribute is excluded: it only reports memcpy/memmove(ptr, NULL, 0) on empty arrays, which every libc defines
+# (and C2y makes well defined); a real null access still faults under ASan.
+SAN = "-fsanitize=address,undefined -fno-sanitize=nonnull-attribute -fno-sanitize-recover=all -fno-omit-frame-pointer"
 
 FLAVOURS = {
     # the shipped configuration: RelWithDebInfo = -O2 -g -DNDEBUG (asserts off, DSPLIB_ASSUME live)
@@ -100,4 +102,24 @@ check(
     level_note="trusted: the 25-line Python-slice reference in the harness; ASan red zones only see accesses outside the array's heap block",
     assumptions=["x.slice(0,n) = x (same object) throws by design and is not judged either way",
                  "index magnitudes beyond +-(n+3) are not driven"],
+)
+
+check(
+    "C05",
+    runs=[dict(harness="C05_misuse", flavour="asan", forks=True, timeout={"quick": 1800, "thorough": 14400})],
+    rule=("a table of call templates covering the public entry points of include/dsplib/*.h; each template enumerates boundary variants "
+          "(array lengths from {0,1,2,3,n-1,n,n+1,2n} relative to the expected length, index lists with entries in -n..n+2 / duplicates / "
+          "empty, slice right-hand sides of every length, wrong-length plan inputs, wrong frame sizes) and includes reuse of the object "
+          "after a rejected call; quick runs every variant (templates with more than 400 variants: a seeded sample of 400) plus 1500 random "
+          "multi-call programs, thorough up to 20000 variants per template plus 1e5 programs. One evaluation = one forked child of the "
+          "ASan+UBSan NDEBUG build; allowed outcomes: normal return or C++ exception. distinct = (template, variant code)."),
+    min_distinct={"quick": 5000, "thorough": 50000},
+    min_obs={"quick": {"outcome_returned": 1000, "outcome_threw": 300}, "thorough": {"outcome_returned": 1000, "outcome_threw": 300}},
+    technique="runtime monitor: fork-per-case execution under AddressSanitizer+UBSan (NDEBUG, DSPLIB_ASSUME live), exit-status classifier, logical step budget hook, watchdog with re-run",
+    level_text=("Each generated call program is executed in its own process of the sanitized shipped configuration and classified by "
+                "exit status / sanitizer report; termination is decided on the step-counter hook where one exists and otherwise by a "
+                "generous watchdog with one re-run. Held on the programs counted in the evidence."),
+    level_note="trusted: gcc ASan/UBSan (red-zone detection misses non-adjacent and intra-object overflows); ASan's out-of-memory abort is counted as std::bad_alloc",
+    assumptions=["numeric parameters are kept inside the documented ranges; array lengths, index entries and right-hand-side lengths are free",
+                 "an ASan 'out-of-memory/allocation-size-too-big' abort is treated as the std::bad_alloc it replaces"],
 )
